@@ -19,10 +19,21 @@ Proved here (all stores / histories / instants / minConf / syncHeight of the mod
   operations) and `C01_balance_inv` (Balance = formula under the invariant).
 * `C01_utxos_sound/_complete` — `UnspentOutputs` lists exactly the entries of the unspent index and of the unconfirmed
   credits that are neither leased nor spent by an unconfirmed transaction.
-* `C01_rollback_restores_spent_credit` — the former zero-value-credit defect, as a positive statement.
+* `C01_balance_ledger`, `C01_balance_refines`, `C01_utxos_ledger`, `C01_watch_ledger` (second half of this file) —
+  the store's records ARE those of the `Ledger` specification after every chain-consistent history of events:
+  `Balance = Ledger.balance`, `UnspentOutputs` = `Ledger.utxos` and `OutputsToWatch` = `Ledger.watchSet` (as sets, each
+  element once).  They rest on the refinement store → `Ledger` proved event by event in `Lemmas/Ref*.lean`
+  (`good_step`, `good_history`, `good_reachable` in `Lemmas/RefAll.lean`; `balance_refines`, `utxos_refines`,
+  `watch_refines`).  The same refinement gives `C02_refines`, `C02_path_independence` (Props/C02.lean) and
+  `C13_once`, `C13_credit`, `C13_debit`, `C13_range`, `C13_removed` (Props/C13.lean).
 
-NOT proved: that the store's records are those of the `Ledger` specification (`step_repr`), i.e. `storeTruth` =
-`Ledger.balance`; that equality is checked at run time (ops `spec probe` / `probe`: Lean spec = Lean model = real Go).
+The former zero-value-credit defect (F6, fixed in /repo 7fa9939) has no theorem of its own: `Inv`, `WF2` and the
+refinement no longer exclude zero-value credits, so a zero-value credit whose confirmed spender is rolled back is one
+of the outputs `C01_utxos_ledger` / `C01_watch_ledger` speak about (scripted engine case `zero-value-credit`).
+
+Nothing of C01 is left `_partial`.  What is compared up to order: the `UnspentOutputs` / `OutputsToWatch` lists
+(`List.Perm`; the store answers in bucket order).  The same relation is also evaluated at run time (ops `refcheck`,
+`reffuzz`, `spec probe` / `probe`: Lean spec = Lean model = real Go).
 -/
 namespace TxStore.C01
 open TxStore KMap
